@@ -70,7 +70,7 @@ def run(tier, lab):
         ck.add_tlc(r, "CanaryParse: %s part of the frame-field lattice" % part)
         for s in r.scn:
             records.append({"id": len(records), "f": s["f"], "class": s["class"]})
-    nrandom = 2000 if tier == "quick" else 50000
+    nrandom = 2000 if tier == "quick" else 300000
     deaths = sweep(ck, lab, records, ["-random", str(nrandom), "-seed", str(lib.seed())], "lattice")
     # floods of connection attempts: table pre-filled up to the boundary, then real SYNs
     if tier == "quick":
